@@ -103,6 +103,8 @@ func verifObserveString(label string, s string) {
 }
 func verifQuiesce()       {}
 func verifSetBudget(n int) {}
+func verifExplore(mapOrderBudget int, sched int) {}
+func verifNativeRepeat(n int) int { return n }
 
 // verifTerminates: natively a watchdog; the replay driver treats a hang as reproduction.
 func verifTerminates(budget int, label string) {
